@@ -92,7 +92,7 @@ MWEIGHTS = {
     'server_new': 2, 'server_delete': 1, 'server_cap': 3, 'server_attrs': 2,
     'server_traits': 1, 'presence_down': 4, 'presence_up': 4, 'server_state': 3,
     'blacklist': 2, 'group': 3, 'del_group': 1, 'clock': 6, 'cell_event': 1,
-    'integrity': 2, 'restart': 0, 'noop': 1, 'blackout_server': 1,
+    'integrity': 2, 'restart': 0, 'noop': 1, 'blackout_server': 1, 'partition_schedule': 1,
 }
 
 
@@ -233,7 +233,7 @@ class MasterDriver:
         rec = {'parent': parent, 'partition': label if (label != '_default' or rng.random() < 0.5) else None,
                'memory': celldrv.spell_cap(rng, cap[0], spell_mb), 'cpu': celldrv.spell_cpu(rng, cap[1]),
                'disk': celldrv.spell_cap(rng, cap[2], spell_mb), 'traits': list(traits),
-               'up_since': int(self.clock.peek()) - rng.choice([0, 3600, 86400 * 3])}
+               'up_since': int(self.clock.peek()) - rng.choice([0, 3600, 86400 * 3, 86400 * 10, 86400 * 10, 86400 * 17])}
         return rec
 
     def op_server_new(self):
@@ -397,7 +397,9 @@ class MasterDriver:
                                'memory': spell_mb(rng, res[0]), 'cpu': celldrv.spell_cpu(rng, res[1]),
                                'disk': spell_mb(rng, res[2]), 'rank': rank, 'rank_adjustment': adj,
                                'max_utilization': rng.choice([None, None, None, 100, 2, 1.5, 1, 0.5, 0]),
-                               'traits': [rng.choice(sorted(self.known_traits))] if self.traits_on and self.known_traits and rng.random() < 0.25 else [],
+                               # a trait the master surely has a code for, or one that is declared nowhere
+                               'traits': ([UNKNOWN_TRAIT] if rng.random() < 0.15 else [rng.choice(sorted(self.known_traits))])
+                               if self.traits_on and self.known_traits and rng.random() < 0.25 else [],
                                'assignments': []}
                         for an in patterns:
                             # an application may be matched by several entries (a wildcard and an exact one,
@@ -407,6 +409,7 @@ class MasterDriver:
                                 obj['assignments'].append({'pattern': an, 'priority': rng.choice([0, 1, 10, 50])})
                         rng.shuffle(obj['assignments'])
                         obj['_res'] = res
+                        obj['_eff'] = self._effective_traits(obj['traits'])
                         allocs.append(obj)
         if not allocs:
             return
@@ -446,7 +449,7 @@ class MasterDriver:
         if self.traits_on and rng.random() < 0.25:
             man['traits'] = [rng.choice(TRAITS + [UNKNOWN_TRAIT])]
         if rng.random() < 0.3:
-            man['lease'] = spell_secs(rng, rng.choice([60, 3600, 86400, 5 * 86400, 30 * 86400]))
+            man['lease'] = spell_secs(rng, rng.choice([60, 3600, 86400, 5 * 86400, 9 * 86400, 9 * 86400, 14 * 86400, 30 * 86400]))
         r = rng.choice([None, None, 0, 5, 30, 120])
         if r is not None:
             man['data_retention_timeout'] = spell_secs(rng, r)
@@ -594,6 +597,14 @@ class MasterDriver:
             else:
                 self.zkutils.put(self.admin, path, {})
             self.ops.append(('blackout_server', s))
+        elif kind == 'partition_schedule':
+            # what cellsync writes when the partition's reboot schedule is (re)declared: a running master
+            # never re-reads it, its successor slots the servers of the partition by the new schedule
+            lb = rng.choice(self.labels)        # cellsync also writes /partitions/_default
+            days = rng.sample(range(7), rng.randint(1, 3))
+            sched = {str(d): [rng.choice([0, 6, 23]), rng.choice([0, 30, 59]), rng.choice([0, 59])] for d in days}
+            self.zkutils.put(self.admin, self.z.path.partition(lb), {'reboot-schedule': sched} if rng.random() < 0.85 else {})
+            self.ops.append(('partition_schedule', lb, sched))
         elif kind == 'integrity':
             return 'integrity'
         elif kind == 'restart':
@@ -612,6 +623,13 @@ class MasterDriver:
         self.mon.reset_cycle()
         self.last_placement = None
         t_lo = self.clock.peek()
+        # the trait codes of a new master: the declared list plus what the stored server records report
+        self.known_traits = set(self.declared)
+        for zs in self.Z['servers'].values():
+            self.known_traits |= set(zs['traits'])
+        self.pending_known = set()
+        for a in self.Z['allocs']:
+            a['_eff'] = self._effective_traits(a['traits'])
         self.master.load_model()
         self.loaded = self.snapshot_model()
         if self.cutter is not None:
@@ -643,6 +661,15 @@ class MasterDriver:
             self.app_batch[n] = (self.batch, i)
         self.sync_H()
         return t_lo, t_hi
+
+    def _effective_traits(self, names):
+        """What an allocation's trait list means when the master loads it: a trait it
+        has no code for (declared nowhere, reported by no loaded server) is a requirement
+        no server meets."""
+        b = 0
+        for n in names or []:
+            b |= TRAIT_BIT[n] if n in TRAIT_BIT and n in self.known_traits else 1
+        return b
 
     def snapshot_model(self):
         cell = self.master.cell
@@ -703,7 +730,7 @@ class MasterDriver:
                                             dict(reserved=[0, 0, 0], rank=100, adj=0, maxutil=None, traits=0))
             self.alloc_specs[(label, parts)] = dict(
                 reserved=list(a['_res']), rank=a['rank'], adj=a['rank_adjustment'],
-                maxutil=a['max_utilization'], traits=trait_bits(a['traits']))
+                maxutil=a['max_utilization'], traits=a['_eff'])
             for asg in a['assignments']:
                 self.assignments.append((asg['pattern'], asg['priority'], (label, parts)))
         H.allocs = self.alloc_specs
